@@ -409,7 +409,7 @@ RULE = (
 
 def build(tier):
     return CheckSpec(
-        [Sub("scenarios", run_case, strategy=_case, budget={"quick": 2500, "thorough": 60000}, max_wall={"quick": 60, "thorough": 2400})],
+        [Sub("scenarios", run_case, strategy=_case, budget={"quick": 2500, "thorough": 300000}, max_wall={"quick": 60, "thorough": 3600})],
         RULE,
         assumptions=[
             "OS boundary replaced by vlib.simnet; a forged datagram from the right address with an outstanding token is a legitimate match (UDP cannot tell)",
